@@ -29,8 +29,24 @@ entry is not SAME; what it prints under --same / --onlysame / neither) and
 
 Out of scope (counted, never a witness): key/deep on a document holding a
 sequence with both hash and non-hash members (the property keeps those modes to
-sequences whose members are all hashes); verdicts that hinge on which mode
-governs such a mixed sequence in the other modes.
+sequences whose members are all hashes); "differ as data" verdicts that hinge on
+which mode governs such a mixed sequence in the other modes; key/deep "differ as
+data" verdicts on NON-identical documents where a record lacks the identity
+field or two records share its value (matching by key is then not a function;
+a document compared with ITSELF stays in scope: reflexivity is unconditional).
+
+Witness keys.  All failed clauses of one case are grouped by cause; the key is
+`C06/<named cause>` when the shape class of the failing place (`locus`: the kinds
+of the two nodes where the walk along the failing path stops, the pair above
+them, the mode governing a sequence pair) matches one of the predicates of
+`_named_cause`, else `C06/<clause group>/<shape class>` -- so an unforeseen
+failure mode surfaces under a key of its own.  Exceptions are keyed by type and
+innermost yamlpath frame.  Classification never decides a verdict.
+
+Not a C06 matter but met on the way: `DiffEntry.__str__` (print_report, not
+quiet) runs `Parsers.jsonify_yaml_data` over entry values, which rewrites !!set
+nodes nested in the caller's documents into mappings IN PLACE; the harness
+therefore prints reports only for set-free pairs.
 """
 import contextlib
 import io
